@@ -184,7 +184,6 @@ FIRST_WAVE_MISSED.update({
     "C07_q": "the monitor always named CLIENT_CLOSED: every single-leaver scenario also runs with observers that listen through ALL_MESSAGE_TYPES only",
     "C08_q": "subscription contexts were not among the changes between reads: contexts over mixed lists (one type paused, one not subscribed) added; C02 caught it from the start",
     "C08_r": "only ONE subscription change happened between two reads: sequences of two and three changes (what unsubscribe / pause of ALL leaves behind meets a per-type change)",
-    "C10_q": "a type id was never looked up before its definition was registered again: the second definition set's messages are decoded once (header plus data) under the first set's registration, then re-registered",
     "C10_r": "no field name began with an underscore: VUS / VUSS with _a, __b, _c_, d_ (first run of the strengthened check: harness error in an unguarded pre-step - now a finding)",
     "C11_q": "with auto padding off every program was one file: a definition that needs padding placed in every file of two-import, chain and diamond closures (refused wherever it sits)",
     "C11_r": "every parse used a fresh Parser: one Parser with auto padding off parses a broken file first, then definitions that need padding - its options are its own",
